@@ -120,7 +120,7 @@ CHECKS["C12"] = dict(
     text=("20 Lean theorems about the MultiValueTracker model for every update-dict history and both base kinds: per-key tracker = fold of "
           "the base update over the zero-filled series since first appearance (closed forms via C10), keys never dropped (prefix), no "
           "duplicate keys, N = number of updates, normalised view (single key raw, zero sum all zeros, otherwise sums to one and "
-          "preserves ratios). Tied to multi_value.py by exact-arithmetic correspondence; numeric-type sweep for the NaN clause. Additionally "
+          "preserves ratios). Tied to multi_value.py by exact-arithmetic correspondence; numeric-type sweep for the NaN clause and, since round 6, narrow / unsigned NumPy dtypes (uint8, uint16, int8) through histories with late and omitted keys against the statistic of the zero-filled series of numbers. Additionally "
           "(soft tie) update / __call__ / get_normalized are translated statement by statement on every run and Props/GenMV.lean proves that "
           "the generated methods take states representing the model's MV to states representing MV.update, with equal get / get_normalized, "
           "for every sequence of updates from a fresh tracker."),
@@ -189,7 +189,7 @@ CHECKS["C16"] = dict(
           "(genuine square root; instantiated for Real.sqrt); tracked variances are >= 0 in every reachable PFI/SAGE state (static, or "
           "0<=alpha<=1). 'Never NaN or infinite whatever numeric type' is decided by a numeric-type sweep on the real code. The empty "
           "importance dictionary (the state before the first estimate) is covered: generated_empty, and shipped_delta_raises_on_empty for the form repaired by fix 7374397; "
-          "normalised views are queried on real explainers from before the first call on."),
+          "normalised views are queried on real explainers from before the first call on; since round 6 the bound is asked again with the same deltas after further calls of the same stream (it refers to the current state whatever was asked before)."),
     design_ref="DESIGN.md section 6, C16", note=TRUST_H + " math.sqrt is a genuine square root.",
     technique="Lean 4 theorems over hand model + differential correspondence + numeric-type sweep",
 )
